@@ -23,6 +23,7 @@ Check(e) ==
       [] e.kind = "rewrite" -> RewriteContract(e)
       [] e.kind = "cnf" -> CnfContract(e)
       [] e.kind = "detect" -> DetectContract(e)
+      [] e.kind = "portfolio" -> PortfolioContract(e)
       [] e.kind = "opt" -> OptContract(e)
       [] e.kind = "twin" -> TwinContract(e)
       [] e.kind = "walk" -> WalkTraceContract(e)
